@@ -266,6 +266,29 @@ func (pipeline *Pipeline) compile(global *Ast) error {
 	return errs.If()
 }
 
+// Returns an error if one of the pipelines called by this pipeline calls,
+// directly or through other pipelines, a pipeline which is still being
+// searched.  A pipeline is added to done with false when its search starts,
+// and set to true once none of its calls were found to lead back to it.
+func (pipeline *Pipeline) checkRecursion(global *Ast, done map[*Pipeline]bool) error {
+	done[pipeline] = false
+	for _, call := range pipeline.Calls {
+		if callee, ok := global.Callables.Table[call.DecId].(*Pipeline); !ok {
+			continue
+		} else if finished, seen := done[callee]; !seen {
+			if err := callee.checkRecursion(global, done); err != nil {
+				return err
+			}
+		} else if !finished {
+			return global.err(call,
+				"RecursiveCallError: Pipeline %s calls itself through pipeline %s.",
+				callee.Id, pipeline.Id)
+		}
+	}
+	done[pipeline] = true
+	return nil
+}
+
 // Check pipeline declarations.
 func (global *Ast) compilePipelineDecs() error {
 	var errs ErrorList
@@ -274,7 +297,20 @@ func (global *Ast) compilePipelineDecs() error {
 			errs = append(errs, err)
 		}
 	}
-	return errs.If()
+	if err := errs.If(); err != nil {
+		return err
+	}
+	// Calling a pipeline which has not been compiled yet is only an error if
+	// it has inputs to bind, so check for indirect recursion separately.
+	done := make(map[*Pipeline]bool, len(global.Pipelines))
+	for _, pipeline := range global.Pipelines {
+		if _, seen := done[pipeline]; !seen {
+			if err := pipeline.checkRecursion(global, done); err != nil {
+				return err
+			}
+		}
+	}
+	return nil
 }
 
 // Check all pipeline input params are bound in a call statement.
